@@ -61,6 +61,62 @@ def corpus(stdlib):
 nontrivial = ws_prop.nontrivial_default
 
 
+def explore_line_ends(r, n, stdlib):
+    """Line ends the generated grammar leaves out (a lone carriage return: `\\r\\r\\n` after a
+    doubled CRLF conversion, an old-Mac line end, a raw `\\r` inside a docstring), placed ABOVE
+    usages in modules that define no fixtures.  CPython counts lines differently there, so the
+    model is not consulted: the two sides of the property are compared on the implementation's
+    own records - every usage listed under a definition must lead back to it at its recorded
+    position, and every usage that leads to it must be listed."""
+    import random
+    import core, wsgen as W
+    h1, _ = core.build_harness()
+    rnd = random.Random(r.seed * 31 + 4)
+    cases, kinds = [], {}
+    for cid in range(n):
+        ws = ws_prop.gen_ws(cid, rnd)
+        cands = [p for p in sorted(ws["files"]) if not def_positions(ws["files"][p], stdlib) and "def test" in ws["files"][p]]
+        if not cands:
+            continue
+        p = rnd.choice(cands)
+        kind = rnd.choice(["docstring-cr", "cr-cr-lf", "mac-line-end"])
+        t = ws["files"][p]
+        if kind == "docstring-cr":
+            t = '"""module note\rsecond part"""\n' + t
+        elif kind == "cr-cr-lf":
+            t = t.replace("\n", "\r\r\n", 1)
+        else:
+            t = "X = 1\rY = 2\n" + t
+        ws["files"][p] = t
+        steps = W.build_steps(ws)
+        add_queries(ws, steps, stdlib)
+        cases.append({"id": cid, "steps": steps})
+        kinds[cid] = (kind, p)
+    obs, _ = core.run_h1(h1, [{"id": c["id"], "ops": [core.h1_op(s) for s in c["steps"]]} for c in cases], "C04_line_ends")
+    bad, pairs = [], 0
+    key = lambda u: (u.get("file") or u.get("file_path") or u.get("path"), u.get("line"), u.get("start_char", u.get("start")), u.get("name"))
+    for c in cases:
+        o = obs.get(c["id"])
+        if o is None or o.get("hang"):
+            continue
+        for st, ans in zip(c["steps"], o["obs"]):
+            if st.get("q") != "refsx" or not isinstance(ans, dict) or "def" not in ans:
+                continue
+            refs = sorted(set(json_key(u) for u in ans["refs"]))
+            back = sorted(set(json_key(g["usage"]) for g in ans["gotos"] if g["ans"] == ans["def"]))
+            pairs += len(ans["gotos"])
+            if refs != back:
+                bad.append({"why": "references and go-to-definition disagree in a document with a lone carriage return (%s in %s)" % kinds[c["id"]],
+                            "definition": ans["def"], "listed_but_not_leading_back": [u for u in refs if u not in back][:4],
+                            "leading_back_but_not_listed": [u for u in back if u not in refs][:4], "case": c})
+    return bad, {"workspaces": len(cases), "pairs": pairs, "kinds": sorted(set(k for k, _ in kinds.values()))}
+
+
+def json_key(u):
+    import json
+    return json.dumps(u, sort_keys=True)
+
+
 def run(r):
     # handler part: the code-lens counts and the incoming calls of the real server against its own reference lists
     # (the exploration is shared with C05, which judges the other handlers)
@@ -77,4 +133,9 @@ def run(r):
         r.violation(dict({"property": PID, "part": "handlers"}, **b), "h2_%d" % len(seen))
     r.notes.append("handler part: %s" % json.dumps({k: v for k, v in stats.items() if k in ("workspaces", "code_lens", "incoming", "references_inverse")}))
     r.extra_coverage = {"handler_part": {k: v for k, v in stats.items() if k in ("workspaces", "code_lens", "incoming")}}
+    bad2, st2 = explore_line_ends(r, 40 if quick else 300, stdlib)
+    for i, b in enumerate(bad2[:3]):
+        r.violation(dict({"property": PID, "part": "line-ends"}, **b), "cr_%d" % i)
+    r.notes.append("line-end part (lone carriage returns above usages; implementation's own records, both directions): %s, %d disagree" % (json.dumps(st2), len(bad2)))
+    r.extra_coverage["line_end_part"] = st2
     return runner.drive_ws(r, sys.modules[__name__])
